@@ -35,8 +35,8 @@ func c02ReadBack(c *kit.Case, d *gen.Doc, keyPrefix string) {
 		return
 	}
 	meta := r.GetMeta()
-	if meta.Version != cfg.Version {
-		fail("version", "version read %v, written %v", meta.Version, cfg.Version)
+	if wantV := max(cfg.Version, d.Cat.Version); meta.Version != wantV {
+		fail("version", "version read %v, written %v (catalog /Version %v)", meta.Version, cfg.Version, d.Cat.Version)
 	}
 	if d.ID != nil {
 		if len(meta.ID) != 2 || !bytes.Equal(meta.ID[0], d.ID[0]) || !bytes.Equal(meta.ID[1], d.ID[1]) {
